@@ -40,6 +40,13 @@ MAPS = [
      [(0x40, 0x6F, 0x10000, False), (0xC0, 0xEF, 0x10000, False), (0x70, 0x71, 0x10000, True)]),
     (".map identifier=7 bank_range=0x10,0x1f addr_range=0x8000,0xffff mask=0x8000 mirror_bank_range=0x90,0x9f\n", 0x90FFF8, 0x108000,
      [(0x10, 0x1F, 0x8000, False), (0x90, 0x9F, 0x8000, False)]),
+    # the HiROM system banks: a window (0x8000-0xffff) smaller than the bank size (64K) the offsets are counted in
+    (".map identifier=1 bank_range=0x00,0x3f addr_range=0x8000,0xffff mask=0x10000 mirror_bank_range=0x80,0xbf\n", 0x00FFF0, 0x808000,
+     [(0x00, 0x3F, 0x10000, False), (0x80, 0xBF, 0x10000, False)]),
+    # attribute values written in decimal and binary
+    (".map identifier=2 bank_range=64, 111 addr_range=0, 65535 mask=65536 mirror_bank_range=0b11000000,0b11101111\n"
+     ".map identifier=3 bank_range=126,127 addr_range=0,65535 mask=65536 writable=1\n", 0x41FFF0, 0x7E0010,
+     [(0x40, 0x6F, 0x10000, False), (0xC0, 0xEF, 0x10000, False), (0x7E, 0x7F, 0x10000, True)]),
     # a later declaration takes banks away from an earlier one
     (".map identifier=1 bank_range=0x00,0x7f addr_range=0x8000,0xffff mask=0x8000\n"
      ".map identifier=2 bank_range=0x20,0x2f addr_range=0,0xffff mask=0x10000\n", 0x21FFF0, 0x308000,
@@ -126,4 +133,4 @@ def cases(ctx):
                 out.append({"kind": f"user-map:{rom}", "rom": rom, "trace": True,
                             "spec": {"t": "blocks", "high": False, "user_map": True, "user_ranges": ranges},
                             "src": f"{text}*={org:#08x}\n{body}"})
-    return out
+    return core.mark_must_assemble(out, {'bank-cross', 'org-to-label', 'ips-in-run', 'org-after-reloc', 'org-to-ram', 'user-map', 'moves', 'long-statement'})
